@@ -1157,7 +1157,32 @@ func (ex *Exec) callBuiltin(caller *frame, fn *ssa.Builtin, args []Value) Value 
 		}
 		panic(fmt.Sprintf("cap: %T", args[0]))
 	case "min", "max":
-		ex.abort("builtin %s unsupported", fn.Name())
+		// integers only (bit-vector terms); the signedness comes from the builtin's signature
+		sig, _ := fn.Type().(*types.Signature)
+		signed := true
+		if sig != nil && sig.Params().Len() > 0 {
+			signed = isSigned(sig.Params().At(0).Type())
+		}
+		r, ok := args[0].(*smt.Term)
+		if !ok || r.S.K != smt.KBV {
+			ex.abort("builtin %s on non-integer operands is not modelled", fn.Name())
+		}
+		for _, a := range args[1:] {
+			t := a.(*smt.Term)
+			var less *smt.Term
+			if signed {
+				less = smt.SLt(t, r)
+			} else {
+				less = smt.ULt(t, r)
+			}
+			if fn.Name() == "max" {
+				greater := smt.Not(smt.Or(less, smt.Eq(t, r)))
+				r = smt.Ite(greater, t, r)
+				continue
+			}
+			r = smt.Ite(less, t, r)
+		}
+		return r
 	case "real":
 		return args[0].(Cplx).Re
 	case "imag":
